@@ -308,3 +308,84 @@ func readOnlyExternalMethod(c *ssa.Function) bool {
 	}
 	return false
 }
+
+// immutableFields: every `immutable T::f` declaration of the contract files (used by the VC generator to keep such
+// fields across abstracted calls) is backed by an obligation: every store to the field anywhere in the module is to
+// an object allocated in the storing function (its initialisation), or in a function listed under allow_in with
+// the reason. Reflection and unsafe writes are outside this analysis (assumption).
+func (v *Verifier) immutableFields(cfg PropConfig, sc StructuralCheck) []StructResult {
+	var a struct {
+		AllowIn map[string]string `json:"allow_in"` // function -> reason
+	}
+	json.Unmarshal(sc.Args, &a)
+	var allow []string
+	for k := range a.AllowIn {
+		allow = append(allow, k)
+	}
+	var out []StructResult
+	for _, im := range v.immutables {
+		spec := im.Spec
+		i := strings.Index(spec, "::")
+		if i < 0 {
+			engineErr("immutable %s: want T::f", spec)
+		}
+		var pkg *types.Package
+		if p, ok := v.allPkgs[im.Pkg]; ok {
+			pkg = p.Types
+		}
+		t, err := v.ResolveType(spec[:i], pkg)
+		if err != nil {
+			engineErr("immutable %s: %v", spec, err)
+		}
+		st, ok := t.Underlying().(*types.Struct)
+		if !ok {
+			engineErr("immutable %s: not a struct", spec)
+		}
+		fname := spec[i+2:]
+		var bad []string
+		cnt := 0
+		found := fname == "*"
+		for _, fn := range v.moduleFunctions(false) {
+			for _, b := range fn.Blocks {
+				for _, in := range b.Instrs {
+					s, ok := in.(*ssa.Store)
+					if !ok {
+						continue
+					}
+					fa, ok := s.Addr.(*ssa.FieldAddr)
+					if !ok {
+						continue
+					}
+					pt, ok := fa.X.Type().Underlying().(*types.Pointer)
+					if !ok || !types.Identical(pt.Elem(), t) {
+						continue
+					}
+					if fname != "*" && st.Field(fa.Field).Name() != fname {
+						continue
+					}
+					cnt++
+					if freshValue(fa.X, map[ssa.Value]bool{}) || matchAny(shortKey(fn), allow) {
+						continue
+					}
+					bad = append(bad, fmt.Sprintf("%s writes %s of an object it did not allocate (%s)", shortKey(fn), st.Field(fa.Field).Name(), v.prog.Fset.Position(s.Pos())))
+				}
+			}
+		}
+		for k := 0; k < st.NumFields(); k++ {
+			if st.Field(k).Name() == fname {
+				found = true
+			}
+		}
+		if !found {
+			bad = append(bad, "no such field")
+		}
+		sort.Strings(bad)
+		out = append(out, StructResult{Name: fmt.Sprintf("%s/structural/immutable[%s]", cfg.ID, spec), Kind: "ownership",
+			Text: fmt.Sprintf("%s is only written while the object is being built (declared `immutable`, relied on across abstracted calls)", spec),
+			Detail: fmt.Sprintf("%d stores scanned; %s", cnt, strings.Join(uniq(bad), "; ")), OK: len(bad) == 0})
+	}
+	if len(out) == 0 {
+		out = append(out, StructResult{Name: fmt.Sprintf("%s/structural/immutable[none]", cfg.ID), Kind: "ownership", Text: "immutable declarations exist", Detail: "none declared", OK: false})
+	}
+	return out
+}
